@@ -33,10 +33,17 @@ def integration_snippets():
     return out
 
 
-def corpus(workdir):
-    """yields (label, path). Snippets are materialised under workdir."""
+def corpus(workdir, seed=0):
+    """yields (label, path). Snippets and generated designs are materialised under workdir."""
+    import gen_corpus
     os.makedirs(workdir, exist_ok=True)
     items = []
+    for label, code in gen_corpus.gen(seed):
+        h = hashlib.sha1(code.encode()).hexdigest()[:10]
+        p = os.path.join(workdir, f"gen_{re.sub(r'[^A-Za-z0-9_]', '_', label)}_{h}.veryl")
+        if not os.path.exists(p):
+            open(p, "w").write(code)
+        items.append((label, p))
     for f in sorted(glob.glob(os.path.join(HERE, "corpus", "*.veryl"))):
         items.append(("verif::" + os.path.basename(f), f))
     for label, code in integration_snippets():
